@@ -226,6 +226,11 @@ class PlotCollection:
 
     def export(self, file_path: str, confirm_overwrite: bool = True) -> None:
         base, ext = os.path.splitext(file_path)
+        if not ext:
+            # savefig() appends the default format to names without extension,
+            # the overwrite check below has to look at those file names.
+            ext = "." + mpl.rcParams["savefig.format"]
+            file_path = base + ext
         if ext == ".pdf" and not SETTINGS.plot_split:
             if confirm_overwrite and not user.check_and_confirm_overwrite(
                     file_path):
